@@ -1036,7 +1036,7 @@ def gen_czar(r, cid, big=False):
     if r.random() < 0.5:
         for _ in range(r.randint(1, 2)):
             restart_at[str(r.randint(1, T - 2))] = [r.choice(["text", "binary"]) for _ in range(n)]
-    return {"kind": "czar", "id": cid, "n": n, "nbins": nb, "freq": freq, "script": script, "restart_at": restart_at, "steps": steps, "gather_at": gather_at}
+    return {"kind": "czar", "id": cid, "n": n, "nbins": nb, "freq": freq, "script": script, "twice": r.random() < 0.4, "restart_at": restart_at, "steps": steps, "gather_at": gather_at}
 
 
 def check_czar(run, exe, model, cases, scratch):
